@@ -129,6 +129,53 @@ Unit(ver, asz, tu) ==
         body == hdr \o dies
     IN <<P("unit_length", U(Len(Cat(body)), 4))>> \o body
 
+(* -- the same unit in the 64-BIT DWARF FORMAT: initial length 0xffffffff +  *)
+(*    8-byte length, every section offset 8 bytes wide.                      *)
+(*    ver 2/3: legacy DW_FORM_data8 (7) section offsets on DW_AT_stmt_list,  *)
+(*    DW_AT_ranges, DW_AT_macro_info and DW_AT_location (location list       *)
+(*    reference); ver 4/5: DW_FORM_sec_offset; DW_FORM_strp, DW_FORM_ref_addr*)
+(*    (address-sized in ver 2) and debug_abbrev_offset are 8-byte offsets;   *)
+(*    ver 5 adds DW_AT_comp_dir as DW_FORM_line_strp and uses DW_AT_macros.  *)
+(*    DW_AT_const_value as DW_FORM_data8 is a plain 8-byte constant.         *)
+AbbrevTable64(ver) ==
+    LET secoff == IF ver >= 4 THEN 23 ELSE 7
+        loc    == IF ver >= 4 THEN 24 ELSE 10
+        macro  == IF ver >= 5 THEN <<121, 23>> ELSE <<67, secoff>>
+        cdir   == IF ver >= 5 THEN <<27, 31>> ELSE <<>> IN
+    <<1, 17, 1,   17, 1,   16, secoff,   3, 14,   19, 5,   85, secoff>> \o macro \o cdir \o <<0, 0,
+      2, 52, 0,   73, 16,   28, 7,   59, 15,   2, loc,   0, 0,
+      3, 52, 0,   2, secoff,   59, 15,   0, 0,
+      0>>
+Unit64(ver, asz, tu) ==
+    LET refw == IF ver = 2 THEN asz ELSE 8
+        hdr  == IF ver <= 4
+                THEN <<P("version", U(ver, 2)), F("debug_abbrev_offset", "secoffset", U(0, 8), TRUE),
+                       P("address_size", <<asz>>)>>
+                ELSE <<P("version", U(5, 2)), P("unit_type", <<IF tu THEN 2 ELSE 1>>), P("address_size", <<asz>>),
+                       F("debug_abbrev_offset", "secoffset", U(0, 8), TRUE)>>
+                     \o (IF tu THEN <<P("type_signature", <<1, 2, 3, 4, 5, 6, 7, 8>>),
+                                      F("type_offset", "unitoffset", U(41, 8), FALSE)>> ELSE <<>>)
+        dies == <<P("abbrev1", <<1>>),
+                  F("low_pc", "addr", U(4096, asz), TRUE),
+                  F("stmt_list", "secoffset", U(0, 8), TRUE),
+                  F("name_strp", "secoffset", U(5, 8), TRUE),
+                  P("language", U(12, 2)),
+                  F("ranges", "secoffset", U(16, 8), TRUE),
+                  F(IF ver >= 5 THEN "macros" ELSE "macro_info", "secoffset", U(32, 8), TRUE)>>
+                \o (IF ver >= 5 THEN <<F("comp_dir_line_strp", "secoffset", U(3, 8), TRUE)>> ELSE <<>>)
+                \o <<P("abbrev2", <<2>>),
+                  F("type_ref_addr", "secoffset", U(23, refw), TRUE),
+                  P("const_value_data8", <<239, 205, 171, 137, 103, 69, 35, 1>>),
+                  P("decl_line_udata", <<77>>),
+                  P("loc_len", <<1 + asz>>), P("DW_OP_addr", <<3>>),
+                  F("loc_addr", "addr", U(8192, asz), TRUE),
+                  P("abbrev3", <<3>>),
+                  F("location_list", "secoffset", U(64, 8), TRUE),
+                  P("decl_line_udata", <<78>>),
+                  P("null", <<0>>)>>
+        body == hdr \o dies
+    IN <<P("escape_0xffffffff", Ones(4)), P("unit_length", U(Len(Cat(body)), 8))>> \o body
+
 (* -- .debug_line, version 4: NUL-terminated tables, DW_LNE_set_address -- *)
 LineProgram(asz) ==
     <<P("set_address_op", <<0, 1 + asz, 2>>), F("set_address", "addr", U(4096, asz), TRUE),
